@@ -170,8 +170,17 @@ theorem hrel_init {L : Nat} (E : Enc L) (sl sh : Nat) (disk : Nat → Option Nat
     | zero => simp at hn; exact ⟨rfl, hn.symm⟩
     | succ j => simp at hn
   refine ⟨⟨trivial, fun b hb => by simp [init] at hb, fun b hb => by simp [init] at hb, fun k e he => by simp [init] at he⟩,
-    ⟨?_, fun _ _ _ => Nat.zero_le _⟩, ?_, ?_, ?_, ?_, ?_, ?_, ?_, ?_, ?_⟩
+    ⟨?_, fun _ _ _ => Nat.zero_le _, ?_, ?_, ?_⟩, ?_, ?_, ?_, ?_, ?_, ?_, ?_, ?_, ?_⟩
   · intro id n c hn hc
+    obtain ⟨_, rfl⟩ := hget id n hn
+    cases hc
+  · intro id n hn
+    obtain ⟨_, rfl⟩ := hget id n hn
+    exact List.Pairwise.nil
+  · intro id n hn ht
+    obtain ⟨_, rfl⟩ := hget id n hn
+    cases ht
+  · intro id n c nc hn hc
     obtain ⟨_, rfl⟩ := hget id n hn
     cases hc
   · intro l; show (none : Option Nat).isSome ↔ (findB [] l).isSome; simp [findB]
